@@ -88,14 +88,17 @@ def run(model, rep, tier):
     # ---- representative coherence (alpha-insensitive patterns)
     from ..engines import pattern
     sg = ci.methods['generateSiteGroupOps']
+    # normal form: the representative ``sites[0]`` is written where it is used, ``==`` / ``!=`` operands are in canonical order;
+    # the rule: some comparison relates  g.indexmap[chem][<class>[0]]  to the loop variable running over the same <class>
     ok = False
-    for b in pattern.find(sg, '_N_rep = _N_sites[0]'):
-        loops = pattern.find(sg, 'for _N_mem in _N_sites:\n    pass'.replace('pass', '_E_body'), _N_sites=b['_N_sites']) or \
-            [x for x in ast.walk(sg) if isinstance(x, ast.For) and unparse(x.iter) == b['_N_sites'] and isinstance(x.target, ast.Name)]
-        mems = [x.target.id if isinstance(x, ast.For) else x['_N_mem'] for x in loops]
-        for m in mems:
-            if pattern.has(sg, '_N_g.indexmap[self.chem][_N_rep] == _N_mem', 'expr', _N_rep=b['_N_rep'], _N_mem=m):
-                ok = True
+    for c in ast.walk(sg):
+        if isinstance(c, ast.Compare) and len(c.ops) == 1 and isinstance(c.ops[0], (ast.Eq, ast.NotEq)):
+            for a, m in ((c.left, c.comparators[0]), (c.comparators[0], c.left)):
+                for b in pattern.find(a, '_N_g.indexmap[self.chem][_N_sites[0]]', 'expr'):
+                    if b['_node'] is a and isinstance(m, ast.Name) and any(
+                            isinstance(x, ast.For) and isinstance(x.target, ast.Name) and x.target.id == m.id
+                            and unparse(x.iter) == b['_N_sites'] for x in ast.walk(sg)):
+                        ok = True
     rep.ob('representative-coherent', mod, sg, 'site operations: g.indexmap[chem][representative] == member, representative = first of the class',
            ok, '' if ok else 'stored operation does not map the representative onto the member site', engine='flow',
            qual='Interstitial.generateSiteGroupOps')
@@ -146,13 +149,30 @@ def run(model, rep, tier):
                 for x in ast.walk(n.target):
                     if isinstance(x, ast.Name) and x.id in raws:
                         rebind_line[x.id] = min(rebind_line.get(x.id, 10 ** 9), n.lineno)
+        def harmless(n, depth=0):
+            """the load ``n`` of an unsymmetrised input reaches only len(), str.format() or a populating call -- directly, or
+            through a literal table iterated by a for loop (``for what, values in (('dipoles', dipole), ...)``) whose
+            corresponding loop variable is itself used harmlessly"""
+            par = getattr(n, '_parent', None)
+            if isinstance(par, ast.Call) and (dotted(par.func) == 'len' or unparse(par.func) in ('self.siteDipoles', 'self.jumpDipoles')
+                                              or (isinstance(par.func, ast.Attribute) and par.func.attr == 'format')):
+                return True
+            if isinstance(par, ast.Tuple) and depth < 2:
+                row, table = par, getattr(par, '_parent', None)
+                lp = getattr(table, '_parent', None)
+                if isinstance(table, ast.Tuple) and isinstance(lp, ast.For) and lp.iter is table and isinstance(lp.target, ast.Tuple) \
+                        and len(lp.target.elts) == len(row.elts) and all(isinstance(r_, ast.Tuple) and len(r_.elts) == len(row.elts) for r_ in table.elts):
+                    tgt = lp.target.elts[row.elts.index(n)]
+                    if isinstance(tgt, ast.Name):
+                        uses = [x for st in lp.body for x in ast.walk(st) if isinstance(x, ast.Name) and x.id == tgt.id and isinstance(x.ctx, ast.Load)]
+                        return all(harmless(u, depth + 1) for u in uses)
+            return False
+
         for r in raws:
             bad = []
             for n in walk_local(fn):
                 if isinstance(n, ast.Name) and n.id == r and isinstance(n.ctx, ast.Load) and n.lineno < rebind_line.get(r, 10 ** 9):
-                    par = getattr(n, '_parent', None)
-                    if isinstance(par, ast.Call) and (dotted(par.func) == 'len' or unparse(par.func) in ('self.siteDipoles', 'self.jumpDipoles')
-                                                      or (isinstance(par.func, ast.Attribute) and par.func.attr == 'format')):
+                    if harmless(n):
                         continue
                     bad.append(n.lineno)
             rep.ob('consume-populated-only', mod, fn, '%s: raw argument %s reaches only len() and the populating call' % (name, r), not bad,
